@@ -131,6 +131,43 @@ CLAIMED = {
             'Trusted: Lean kernel, standard axioms, extract.py, harness. That the importer\'s tree is the spine-path tree of the grid is C02\'s subject (correspondence); is_monophonic is decided by '
             'correspondence with the model and the grid oracle only.',
             'DESIGN.md §5 C17'),
+    'C02': ('Lean 4 proof: importer invariants by exhaustive branch analysis of the cell step lifted by induction over cells and rows (stage count, strictly increasing measure index, frame conditions), reader round trip by list induction, surplus-cell rejection; global spine-path refinement by exhaustive-layout correspondence',
+            'Theorems C02_one_stage_per_line (every parser, every row list: 1 + number of non-empty rows stages), C02_measure_index_ok, C02_reader_literal (reading the rendering of any grid '
+            'whose cells are free of TAB / line boundaries gives the grid back: quotes, commas, spaces are ordinary characters), C02_surplus_data / _operator / _comment and '
+            'C02_surplus_row_rejected (a row with a data token beyond the live spine paths makes the import fail, whatever the other cells are), C02_row_error_propagates, '
+            'C02_data_cell_node (one node per cell, parent = the node above on the path, header node inherited), C02_split_and_end. Tied by the exhaustive enumeration of every '
+            'spine-operator layout (<= 2 spines, <= 4 paths, <= 2/3 operator rows), generated documents, special-character cells and surplus cells of each kind against an independent '
+            'spine-path tracker on the source grid and the model (whole tree compared).',
+            'Partial: the refinement across rows (the parents list equals the reference tracker on the whole grid, including the *v collapse rule) is not a Lean theorem; it is decided by '
+            'the exhaustive-layout correspondence. Trusted: Lean kernel, standard axioms, extract.py, harness.',
+            'DESIGN.md §5 C02'),
+    'C08': ('Lean 4 proof of the provable part (terminator arithmetic, body = rows of the full score) plus a kernel-evaluated NEGATIVE theorem on a literal document inside the claimed core; core/frontier streams by correspondence with known-finding attribution',
+            'Theorems C08_terminator_count / _not_doubled / _cells / C08_no_terminator_without_range, C08_body_is_full_score_rows (via C07_body), and C08_nested_split_witness: the model\'s '
+            'excerpt of measure 2 of a literal score whose split has both branches split again is **kern / *^ / *clefG2 / ... - the property is false inside its own claimed core (finding F15d). '
+            'The check runs a core stream (signatures before the first measure and even, splits re-joined and not nested) where every clause must hold, and a frontier stream '
+            '(mid-score signatures, nested splits, starts inside splits, non-kern spines) whose failures are attributed to the known findings F15a-d only when the model predicts exactly the '
+            'same output; every excerpt is compared with the model.',
+            'Partial: well-formedness and same-governing-signatures of the excerpt on the core are established by correspondence (text-level trackers), not by a Lean theorem. '
+            'Trusted: Lean kernel, standard axioms, extract.py, harness.',
+            'DESIGN.md §5 C08'),
+    'C12': ('Lean 4 proof: state machine of the shared ErrorListener (reset fact regenerated from the AST) gives history independence by induction over the cell sequence; per-cell isolation theorems by unfolding the importer step; damage placements and importer histories by correspondence',
+            'Theorems resets_errors (translator fact), C12_state_independent, C12_history (every raw parser, every sequence of cells fed to one importer: each outcome is the fresh-importer '
+            'outcome), C12_order_irrelevant, C12_rejected_cell (import goes on; one node at the token\'s place with an ErrorToken holding the verbatim text; exactly one error with the current '
+            'line number appended; nothing else changes), C12_accepted_cell (no error added), C12_exported_verbatim. Tied by generated documents with 1..3 damaged cells (errors = exactly those '
+            'cells in order with line and text, all other tokens and links identical to the undamaged import, exported in place), all importer histories up to length 3/5 over a 12-token '
+            'alphabet, and the silent-shortening clause on a token corpus.',
+            'Partial: the document-level statement over several damaged cells is decided by correspondence. "No cell is silently shortened" depends on the ANTLR grammar alone (open finding F3); '
+            'separator characters inside a malformed cell are stripped by the plain encodings (open finding F10). Trusted: Lean kernel, standard axioms, extract.py (AST facts), harness.',
+            'DESIGN.md §5 C12'),
+    'C15': ('Lean 4 proof about the model of to_transposed (structure kept, only PITCH sub-tokens rewritten by the C09 arithmetic) plus NEGATIVE theorems on literal witnesses for the three classes the code violates; 40 intervals x 2 directions by correspondence',
+            'Theorems C15_links_kept, C15_non_notes_unchanged (chords included), C15_note (decorations identical, same length, categories kept, every non-PITCH sub-token unchanged, every PITCH '
+            'sub-token = transpose(pitch)), C15_pitch_is_C09 (exactly the letter/semitone specification for pitches without accidental), C15_bad_arguments; negative: C15_source_is_modified '
+            '(the source after the call is the result: F14c), C15_accidental_not_merged (e- up M2 gives f#-: F14a), C15_chords_not_transposed (F14b). Tied on a core stream (single notes without '
+            'accidental: export of the result = source grid with only the pitch letters replaced by the C09 result, transposing back restores it) and a frontier stream, all compared with the '
+            'model, which returns the result AND the source after the call.',
+            'Partial: the property as stated is violated by the code in three classes named in the property itself; they are tracked as known findings F14a-c. '
+            'Trusted: Lean kernel, standard axioms, extract.py, harness.',
+            'DESIGN.md §5 C15'),
 }
 
 NOT_YET = {}
